@@ -148,21 +148,24 @@ def run(ctx):
                 nleaves = len(env.leaf_objects(tb))
                 jars = {1: Jar(st), 2: Jar(st)}
                 trees = {i: jars[i].get(root) for i in (1, 2)}
-                base_leaf_oids = {i: [o._p_oid for o in env.leaf_objects(trees[i])] for i in (1, 2)}
-                base_leaf_items = [leaf_items(env, o) for o in env.leaf_objects(trees[1])]
+                # (taken from the reader's copy: the writers' nodes must stay ghosts until their first write)
+                base_leaf_oids = {i: [o._p_oid for o in env.leaf_objects(tb)] for i in (1, 2)}
+                base_leaf_items = [leaf_items(env, o) for o in env.leaf_objects(tb)]
                 refs = {}
                 readdecl_ok = True
                 for i, ops in ((1, t1ops), (2, t2ops)):
                     d = dict(base)
-                    for op in ops:
-                        # read-dependency declarations of this write
+                    for opi, op in enumerate(ops):
+                        # read-dependency declarations of this write.  For the FIRST write of a transaction the path is
+                        # computed on another connection's copy of the same committed tree, so that in the writing
+                        # connection the nodes are still ghosts when the write starts (they are loaded by the write)
                         if op[0] in ("ins", "del"):
-                            pn = [o for o in path_nodes(env, trees[i], op[1]) if o._p_oid is not None and o._p_oid in st.records]
-                            before = set(jars[i].readcurrent)
+                            src = tb if opi == 0 else trees[i]
+                            pn_oids = [o._p_oid for o in path_nodes(env, src, op[1]) if o._p_oid is not None and o._p_oid in st.records]
                         ran = apply_op(env, trees[i], op)
                         if op[0] in ("ins", "del"):
-                            regs = {id(o) for o in jars[i].registered}
-                            missing = [o for o in pn if o._p_oid not in jars[i].readcurrent and id(o) not in regs]
+                            regs = {o._p_oid for o in jars[i].registered}
+                            missing = [x for x in pn_oids if x not in jars[i].readcurrent and x not in regs]
                             if missing and (ran or impl == "Py"):
                                 ctx.oracle_failure("%s:%s:write-does-not-declare-read" % (impl, kind),
                                                    "%s%s/%s: %r descended through %d stored interior node(s) that are neither read-current nor changed" % (fn, kind, impl, op, len(missing)),
